@@ -1,7 +1,10 @@
 //! C36: client acknowledgement bookkeeping.  Runs the REAL `Session::publish` (hook
 //! `verif_publish`) on a session whose transport is replaced by an in-memory queue (hook
 //! `verif_install_transport`): the harness plays the server, answering each PublishRequest with a
-//! PublishResponse, a ServiceFault, an unexpected response, or a BadTimeout, in any interleaving.
+//! PublishResponse (empty, with data, with an undecodable body), a ServiceFault, an unexpected
+//! response, or a BadTimeout, in any interleaving; the transport may be down when a publish starts
+//! (not connected / queue closed); and the client creates, modifies, deletes subscriptions and
+//! switches their publishing mode through the real service calls in between.
 #[path = "../util.rs"]
 mod util;
 use util::*;
@@ -14,7 +17,8 @@ use opcua::types::*;
 use std::sync::Arc;
 
 #[derive(Clone, Debug)]
-pub enum Op { Start, RespOk(u32, u32, u32), RespOkBad(u32, u32, u32, u8), RespErr(u32, u8) } // RespErr kind: 0 timeout, 1 service fault, 2 unexpected response, 3 closed
+pub enum Op { Start, RespOk(u32, u32, u32, u8), RespOkBad(u32, u32, u32, u8), RespErr(u32, u8), // RespErr kind: 0 timeout, 1 service fault, 2 unexpected response, 3 closed
+              StartDown(u8), SubAdd(u32), SubDel(u32), SubMod(u32), SubPub(u32) }
 pub struct P;
 
 fn enc(acks: &[(u32, u32)], out: &mut Vec<i128>) {
@@ -39,6 +43,48 @@ fn make_session() -> Arc<Session> {
 
 async fn settle() { for _ in 0..20 { tokio::task::yield_now().await; } }
 
+struct Nop;
+impl opcua::client::OnSubscriptionNotification for Nop {}
+
+/// what the notification message of a PublishResponse carries
+fn notification_data(kind: u8) -> Option<Vec<ExtensionObject>> {
+    let dcn = DataChangeNotification {
+        monitored_items: Some(vec![
+            MonitoredItemNotification { client_handle: 1, value: DataValue::from(Variant::from(1i32)) },
+            MonitoredItemNotification { client_handle: 77, value: DataValue::from(Variant::from(2i32)) }]),
+        diagnostic_infos: None };
+    let scn = StatusChangeNotification { status: StatusCode::GoodSubscriptionTransferred, diagnostic_info: DiagnosticInfo::null() };
+    match kind % 4 {
+        0 => None,
+        1 => Some(vec![ExtensionObject::from_encodable(ObjectId::DataChangeNotification_Encoding_DefaultBinary, &dcn)]),
+        2 => Some(vec![ExtensionObject::from_encodable(ObjectId::DataChangeNotification_Encoding_DefaultBinary, &dcn),
+                       ExtensionObject::from_encodable(ObjectId::StatusChangeNotification_Encoding_DefaultBinary, &scn)]),
+        // a data change id over the body of a status change: does not decode
+        _ => Some(vec![{ let mut e = ExtensionObject::from_encodable(ObjectId::StatusChangeNotification_Encoding_DefaultBinary, &scn);
+                         e.node_id = ObjectId::DataChangeNotification_Encoding_DefaultBinary.into(); e }]),
+    }
+}
+
+/// the harness as server for one subscription-management call: answer the request if one was sent
+async fn serve_one(rx: &mut tokio::sync::mpsc::UnboundedReceiver<VerifOutgoing>, sub: u32) -> bool {
+    settle().await;
+    let Ok(m) = rx.try_recv() else { return false };
+    let h = ResponseHeader::null();
+    let resp: SupportedMessage = match &m.request {
+        SupportedMessage::CreateSubscriptionRequest(r) => CreateSubscriptionResponse { response_header: h, subscription_id: sub,
+            revised_publishing_interval: r.requested_publishing_interval, revised_lifetime_count: r.requested_lifetime_count,
+            revised_max_keep_alive_count: r.requested_max_keep_alive_count }.into(),
+        SupportedMessage::ModifySubscriptionRequest(r) => ModifySubscriptionResponse { response_header: h,
+            revised_publishing_interval: r.requested_publishing_interval, revised_lifetime_count: r.requested_lifetime_count,
+            revised_max_keep_alive_count: r.requested_max_keep_alive_count }.into(),
+        SupportedMessage::DeleteSubscriptionsRequest(_) => DeleteSubscriptionsResponse { response_header: h, results: Some(vec![StatusCode::Good]), diagnostic_infos: None }.into(),
+        SupportedMessage::SetPublishingModeRequest(_) => SetPublishingModeResponse { response_header: h, results: Some(vec![StatusCode::Good]), diagnostic_infos: None }.into(),
+        _ => return false,
+    };
+    let _ = m.callback.unwrap().send(Ok(resp));
+    true
+}
+
 async fn exec_async(ops: &[Op]) -> Vec<i128> {
     let session = make_session();
     let mut rx = session.verif_install_transport();
@@ -62,7 +108,32 @@ async fn exec_async(ops: &[Op]) -> Vec<i128> {
                 enc(&acks, &mut out);
                 inflight.push((m.callback.unwrap(), h));
             }
-            Op::RespOk(k, sub, seq) | Op::RespOkBad(k, sub, seq, _) => {
+            Op::StartDown(kind) => {
+                // the transport is down when the publish call starts: the request never reaches the server
+                if *kind % 2 == 0 { session.verif_disconnect_transport(); } else { drop(rx); settle().await; }
+                let r = session.verif_publish().await;
+                if r.is_ok() { out.push(-5); return out; }
+                // a queue that was closed swallows one request before the sender notices
+                if *kind % 2 == 1 { let r2 = session.verif_publish().await; if r2.is_ok() { out.push(-5); return out; } }
+                rx = session.verif_install_transport();
+                enc(&session.verif_pending_acks(), &mut out);
+            }
+            Op::SubAdd(sub) | Op::SubDel(sub) | Op::SubMod(sub) | Op::SubPub(sub) => {
+                let s = session.clone();
+                let (o, id) = (op.clone(), *sub);
+                let h = tokio::spawn(async move {
+                    match o {
+                        Op::SubAdd(_) => s.create_subscription(std::time::Duration::from_millis(100), 30, 10, 0, 0, true, Nop).await.map(|_| ()),
+                        Op::SubDel(_) => s.delete_subscription(id).await.map(|_| ()),
+                        Op::SubMod(_) => s.modify_subscription(id, 250.0, 60, 20, 0, 1).await,
+                        _ => s.set_publishing_mode(&[id], id % 2 == 0).await.map(|_| ()),
+                    }
+                });
+                serve_one(&mut rx, *sub).await;
+                let _ = h.await;
+                enc(&session.verif_pending_acks(), &mut out);
+            }
+            Op::RespOk(k, sub, seq, _) | Op::RespOkBad(k, sub, seq, _) => {
                 if !inflight.is_empty() {
                     let i = (*k as usize) % inflight.len();
                     let (cb, h) = inflight.remove(i);
@@ -75,7 +146,8 @@ async fn exec_async(ops: &[Op]) -> Vec<i128> {
                         subscription_id: *sub,
                         available_sequence_numbers: None,
                         more_notifications: false,
-                        notification_message: NotificationMessage { sequence_number: *seq, publish_time: DateTime::null(), notification_data: None },
+                        notification_message: NotificationMessage { sequence_number: *seq, publish_time: DateTime::null(),
+                            notification_data: match op { Op::RespOk(_, _, _, d) => notification_data(*d), _ => None } },
                         results: None,
                         diagnostic_infos: None,
                     };
@@ -110,33 +182,52 @@ impl Property for P {
     fn fixed(_tier: &str) -> Vec<Vec<Op>> {
         use Op::*;
         vec![
-            vec![Start, RespOk(0, 1, 10), Start, RespOk(0, 1, 11), Start, RespOk(0, 1, 12)],
-            vec![Start, RespOk(0, 1, 10), Start, RespErr(0, 0), Start, RespOk(0, 1, 11), Start],
-            vec![Start, RespOk(0, 1, 10), Start, Start, RespErr(0, 0), RespOk(0, 1, 11), Start, RespOk(5, 2, 7)],
-            vec![Start, RespOk(0, 1, 10), Start, RespErr(0, 1), Start, RespErr(0, 2), Start, RespErr(0, 3), Start, RespOk(0, 1, 11)],
+            vec![Start, RespOk(0, 1, 10, 1), Start, RespOk(0, 1, 11, 2), Start, RespOk(0, 1, 12, 3)],
+            vec![Start, RespOk(0, 1, 10, 0), Start, RespErr(0, 0), Start, RespOk(0, 1, 11, 1), Start],
+            vec![Start, RespOk(0, 1, 10, 2), Start, Start, RespErr(0, 0), RespOk(0, 1, 11, 3), Start, RespOk(5, 2, 7, 0)],
+            vec![Start, RespOk(0, 1, 10, 1), Start, RespErr(0, 1), Start, RespErr(0, 2), Start, RespErr(0, 3), Start, RespOk(0, 1, 11, 2)],
             // the same number received twice (keep-alive carries the next sequence number)
-            vec![Start, RespOk(0, 1, 5), Start, RespOk(0, 1, 5), Start, RespOk(0, 1, 6), Start],
+            vec![Start, RespOk(0, 1, 5, 3), Start, RespOk(0, 1, 5, 0), Start, RespOk(0, 1, 6, 1), Start],
             // PublishResponse with a Bad service result in its header, with acknowledgements in flight
-            vec![Start, RespOk(0, 7, 1), Start, RespOkBad(0, 7, 2, 0), Start, RespOk(0, 7, 3), Start, RespOk(0, 7, 4)],
-            vec![Start, RespOk(0, 1, 1), Start, RespOkBad(0, 1, 2, 1), Start, RespOkBad(0, 1, 3, 2), Start, RespErr(0, 0), Start],
-            vec![RespOk(0, 1, 1), RespErr(0, 0), Start, Start, Start, RespOk(2, 1, 1), RespOk(1, 2, 1), RespErr(0, 0), Start, RespOk(0, 3, 3)],
+            vec![Start, RespOk(0, 7, 1, 2), Start, RespOkBad(0, 7, 2, 0), Start, RespOk(0, 7, 3, 3), Start, RespOk(0, 7, 4, 0)],
+            vec![Start, RespOk(0, 1, 1, 1), Start, RespOkBad(0, 1, 2, 1), Start, RespOkBad(0, 1, 3, 2), Start, RespErr(0, 0), Start],
+            vec![RespOk(0, 1, 1, 2), RespErr(0, 0), Start, Start, Start, RespOk(2, 1, 1, 3), RespOk(1, 2, 1, 0), RespErr(0, 0), Start, RespOk(0, 3, 3, 1)],
+            // subscriptions exist / are deleted while their acknowledgements wait or are in flight
+            vec![SubAdd(1), SubAdd(2), Start, RespOk(0, 1, 1, 1), RespOk(0, 2, 1, 2), SubDel(1), Start, RespOk(0, 2, 2, 2), SubDel(2), Start, RespOk(0, 1, 9, 0), Start],
+            vec![SubAdd(1), Start, RespOk(0, 1, 1, 2), Start, SubDel(1), RespErr(0, 0), SubAdd(1), SubMod(1), SubPub(1), Start, RespOk(0, 1, 2, 3), Start, RespOk(0, 3, 1, 1)],
+            // the transport is down when a publish starts (not connected / queue closed), acknowledgements waiting
+            vec![Start, RespOk(0, 1, 1, 0), StartDown(0), Start, RespOk(0, 1, 2, 1), StartDown(1), StartDown(0), Start, RespOk(0, 1, 3, 0), Start],
+            // many acknowledgements waiting for one request (12 responses, then failures, then one request carries 17)
+            { let mut v = vec![Start; 12]; for i in 0..12 { v.push(RespOk(0, 1 + i % 3, 10 + i, (i % 4) as u8)); }
+              v.extend([Start, Start, Start]); for i in 0..5 { v.push(RespOk(1, 2, 30 + i, 2)); v.push(Start); }
+              v.extend([RespErr(0, 0), RespErr(0, 1), RespErr(0, 3), Start, RespOk(0, 1, 50, 0), Start]); v },
         ]
     }
     fn gen(r: &mut Rng) -> Vec<Op> {
-        let n = 2 + r.below(24);
+        // burst: many requests in flight, then long runs of responses, so that many acknowledgements wait at once
+        let burst = r.chance(1, 4);
+        let n = if burst { 24 + r.below(26) } else { 2 + r.below(30) };
+        let maxin = if burst { 9 + r.below(6) as u32 } else { 5 };
         let mut ops = Vec::new();
         let mut infl = 0u32;
         let mut seq = [1u32; 3];
+        let mut starting = true;
         for _ in 0..n {
             let c = r.below(10);
-            if infl == 0 && c < 9 || c < 4 && infl < 5 {
+            if burst { if infl == 0 { starting = true; } else if infl >= maxin { starting = false; } }
+            if r.chance(1, 9) {
+                let sub = 1 + r.below(3) as u32;
+                ops.push(match r.below(6) { 0 | 1 => Op::SubAdd(sub), 2 | 3 => Op::SubDel(sub), 4 => Op::SubMod(sub), _ => Op::SubPub(sub) });
+            } else if r.chance(1, 14) {
+                ops.push(Op::StartDown(r.below(2) as u8));
+            } else if (burst && starting) || (!burst && (infl == 0 && c < 9 || c < 4 && infl < maxin)) {
                 ops.push(Op::Start); infl += 1;
             } else if c < 8 {
                 let sub = r.below(3) as u32;
                 // mostly fresh increasing numbers, sometimes a repeat (keep-alive)
                 if !r.chance(1, 6) { seq[sub as usize] += 1; }
                 if r.chance(1, 5) { ops.push(Op::RespOkBad(r.below(4) as u32, sub + 1, seq[sub as usize], r.below(4) as u8)); }
-                else { ops.push(Op::RespOk(r.below(4) as u32, sub + 1, seq[sub as usize])); }
+                else { ops.push(Op::RespOk(r.below(4) as u32, sub + 1, seq[sub as usize], r.below(4) as u8)); }
                 infl = infl.saturating_sub(1);
             } else {
                 ops.push(Op::RespErr(r.below(4) as u32, r.below(4) as u8)); infl = infl.saturating_sub(1);
@@ -149,12 +240,21 @@ impl Property for P {
         let ops = c.clone();
         let out = match guarded(|| rt.block_on(exec_async(&ops))) { Ok(o) => o, Err(_) => vec![-2] };
         let fails = c.iter().filter(|o| matches!(o, Op::RespErr(..))).count();
-        let maxin = { let mut m = 0i32; let mut cur = 0i32; for o in c { match o { Op::Start => { cur += 1; m = m.max(cur); } _ => { cur = (cur - 1).max(0); } } } m };
+        let maxin = { let mut m = 0i32; let mut cur = 0i32; for o in c { match o { Op::Start => { cur += 1; m = m.max(cur); } Op::RespOk(..) | Op::RespOkBad(..) | Op::RespErr(..) => { cur = (cur - 1).max(0); } _ => {} } } m };
+        let subs = c.iter().any(|o| matches!(o, Op::SubAdd(..) | Op::SubDel(..) | Op::SubMod(..) | Op::SubPub(..)));
+        let down = c.iter().any(|o| matches!(o, Op::StartDown(..)));
+        let maxacks = { let mut m = 0usize; let mut i = 0; while i < out.len() && out[i] >= 0 { let k = out[i] as usize; m = m.max(k); i += 1 + 2 * k; } m };
         let badh = c.iter().any(|o| matches!(o, Op::RespOkBad(..)));
-        let tag = format!("{}-{}{}", if fails == 0 { "nofail" } else { "fail" }, if maxin > 1 { "concurrent" } else { "sequential" }, if badh { "-badheader" } else { "" });
+        let tag = format!("{}-{}{}{}{}{}", if fails == 0 { "nofail" } else { "fail" }, if maxin > 1 { "concurrent" } else { "sequential" }, if badh { "-badheader" } else { "" },
+            if subs { "-subs" } else { "" }, if down { "-down" } else { "" }, if maxacks > 10 { "-manyacks" } else { "" });
         let term = coq_list(c, |o| match o {
             Op::Start => "Start".to_string(),
-            Op::RespOk(k, s, q) => format!("RespOk {} {} {}", k, s, q),
+            Op::RespOk(k, s, q, d) => format!("RespOk {} {} {} {}", k, s, q, d % 4),
+            Op::StartDown(k) => format!("StartDown {}", k % 2),
+            Op::SubAdd(s) => format!("SubAdd {}", s),
+            Op::SubDel(s) => format!("SubDel {}", s),
+            Op::SubMod(s) => format!("SubMod {}", s),
+            Op::SubPub(s) => format!("SubPub {}", s),
             Op::RespOkBad(k, s, q, _) => format!("RespOkBad {} {} {}", k, s, q),
             Op::RespErr(k, _) => format!("RespErr {}", k),
         });
